@@ -108,9 +108,23 @@ def run_plan(pid, tier, seed, plan, evidence_name=None):
                 frac = w.get("fraction", 1.0) * mfrac
                 use = scripts
                 nuse = n
+                if w.get("without_ops"):      # operations this world's types do not have (peekEvent needs copyable arguments): scripts using them are left out
+                    keep = os.path.join(wd, "%s.%s.kept" % (w["name"], tag))
+                    pats = ['\\"%s\\"' % o for o in w["without_ops"]] + ['"%s"' % o for o in w["without_ops"]]
+                    nuse = 0
+                    with open(use) as fi, open(keep, "w") as fo:
+                        for line in fi:
+                            if not any(pt in line for pt in pats):
+                                fo.write(line)
+                                nuse += 1
+                    use = keep
+                    n = nuse
+                    if nuse == 0:
+                        continue
                 if frac < 1.0:
+                    src = use
                     use = os.path.join(wd, "%s.%s.sample" % (w["name"], tag))
-                    nuse = se.sample_file(scripts, n, max(1, int(n * frac)), w.get("sample_seed", seed * 7919 + wi), use)
+                    nuse = se.sample_file(src, n, max(1, int(n * frac)), w.get("sample_seed", seed * 7919 + wi), use)
                 tasks += se.make_tasks(exe, w["name"], use, nuse, plan["trace_module"], wd, "%s-%s" % (w["name"], tag),
                                        interp_args=w.get("args", ()), reset_event=plan.get("reset_event", '"e":"rs"'), max_rej=1,
                                        trace_env=w.get("trace_env"))
